@@ -130,6 +130,59 @@ def _ungrouped_task(task, p):
         p.sample(sub, {"axis_days": days, "begin_day": 5, "end_day": 12, "steps_in_window": ref_window(days, 5, 12)})
 
 
+def far_dates(ctx):
+    """Open-ended windows written as far-away sentinels (years 1, 1400, 2500, 9999): they are ordinary dates
+    'before the first' / 'after the last' step and must select what None selects."""
+    st, ut = _mods()
+    sub = "far_dates"
+    far_before = ["0001-01-01", "1400-01-01", "1677-01-01"]
+    far_after = ["2262-12-31", "2500-01-01", "9999-12-31"]
+    for positions in ((0, 2, 3, 5, 8), (0, 1, 2, 3, 4, 5)):
+        da = cube_for(positions)
+        days = [STEP * k for k in positions]
+        n = len(positions)
+        x = da.values.reshape(5, 1, n)
+        tix = da.get_index("time")
+        lab = ([0, 1] * n)[:n]
+        for b in [None, iso(days[1])] + far_before:
+            for e in [None, iso(days[-2])] + far_after:
+                if b is None and e is None:
+                    continue
+                kw = {}
+                if b is not None:
+                    kw["calibration_begin"] = b
+                if e is not None:
+                    kw["calibration_end"] = e
+                lo = 1 if b == iso(days[1]) else 0
+                hi = n - 2 if e == iso(days[-2]) else n - 1
+                key = {"axis": list(positions), "begin": b, "end": e}
+                ctx.count(sub, evaluations=1, nontrivial=1)
+                try:
+                    with warnings.catch_warnings():
+                        warnings.simplefilter("ignore")
+                        res = da.hdc.algo.spi(**kw)
+                except Exception as ex:
+                    ctx.violation(sub, key, {"kind": "far"}, f"spi({kw}) on axis days {days} raised {type(ex).__name__}: {ex} (the window holds steps {lo}..{hi})")
+                    continue
+                exp = np.asarray(st.gammastd_yxt(x, ND, lo, hi + 1)).reshape(5, n)
+                if not np.array_equal(res.values.reshape(5, n), exp):
+                    ctx.violation(sub, key, {"kind": "far"}, f"spi({kw}) on axis days {days} does not fit on the steps {lo}..{hi}")
+                a = res.attrs
+                if a.get("spi_calibration_begin") != str(tix[lo]) or a.get("spi_calibration_end") != str(tix[hi]):
+                    ctx.violation(sub, dict(key, what="attrs"), {"kind": "far"}, f"spi({kw}): attrs {a.get('spi_calibration_begin')} / {a.get('spi_calibration_end')}")
+                if n == 6 and (b in far_before or b is None) and (e in far_after or e is None):
+                    with warnings.catch_warnings():
+                        warnings.simplefilter("ignore")
+                        try:
+                            g = da.hdc.algo.spi(groups=lab, **kw).values
+                            g0 = da.hdc.algo.spi(groups=lab).values
+                            if not np.array_equal(g, g0):
+                                ctx.violation(sub, dict(key, grouped=True), {"kind": "far"}, f"grouped spi({kw}) differs from the grouped default window")
+                        except Exception as ex:
+                            ctx.violation(sub, dict(key, grouped=True), {"kind": "far"}, f"grouped spi({kw}) raised {type(ex).__name__}: {ex}")
+    ctx.sample(sub, {"far_before": far_before, "far_after": far_after})
+
+
 def _tod_task(task, p):
     """Axes stamped at 10:30 (not midnight): begin/end at 00:00, exactly on the stamp, and at 23:00 of every lattice
     day, and the default window whose end is the last (non-midnight) timestamp."""
@@ -452,12 +505,15 @@ def run(ctx):
     ctx.pmap(_grouped_task, tasks)
     ctx.note("grouped_axes", [list(a) for a in gaxes])
     ctx.pmap(_sequence_task, [0])
+    far_dates(ctx)
     direct(ctx)
 
 
 def replay(sub, case, p):
     if case["kind"] == "win":
         _ungrouped_task(tuple(case["axis"]), p)
+    elif case["kind"] == "far":
+        far_dates(p)
     elif case["kind"] == "seq":
         _sequence_task(0, p)
     elif case["kind"] == "tod":
